@@ -132,6 +132,9 @@ func (c *Chooser) Step(format string, a ...any) {
 		ev = fmt.Sprintf(format, a...)
 	}
 	c.x.Events = append(c.x.Events, ev)
+	if c.ex.Trace {
+		fmt.Println("   step:", ev)
+	}
 	c.x.steps++
 	if !c.Replaying() {
 		c.x.newStep++
@@ -229,6 +232,8 @@ type Explorer struct {
 	// Reset is called before every execution (e.g. to reset the
 	// determinised runtime's counters).
 	Reset func()
+	// Trace prints every step as it happens (replays).
+	Trace bool
 
 	body func(c *Chooser)
 
@@ -505,6 +510,7 @@ func (e *Explorer) runBound() bool {
 			e.Res.Caps = append(e.Res.Caps, fmt.Sprintf("exec_cap_%d", e.ExecCap))
 			return false
 		}
+		e.noteCurrent(prefix)
 		x := e.RunOne(prefix, false)
 		e.Res.Executions++
 		owned := e.owner(x.Choices) == e.Shard
@@ -535,6 +541,19 @@ func (e *Explorer) runBound() bool {
 		}
 	}
 	return true
+}
+
+// noteCurrent records the execution about to run, so that the runner can
+// turn a crash of the whole process (an unrecovered panic in a goroutine of
+// the component under test) into a replayable violation.
+func (e *Explorer) noteCurrent(prefix []int) {
+	p := os.Getenv("VFX_CRASHFILE")
+	if p == "" {
+		return
+	}
+	b, _ := json.Marshal(&Violation{Harness: e.Harness, Config: e.Config,
+		Choices: prefix, Clause: "crash"})
+	_ = os.WriteFile(p, b, 0o644)
 }
 
 func (e *Explorer) account(x *Exec) {
@@ -671,6 +690,7 @@ func (e *Explorer) ReplayFile(path string, body func(c *Chooser)) (*Violation, *
 	}
 	e.body = body
 	e.curBound = -1
+	e.Trace = true
 	x := e.RunOne(v.Choices, true)
 	return &v, x, nil
 }
@@ -774,4 +794,12 @@ func LoadReplay(path string) (*Violation, error) {
 		return nil, err
 	}
 	return &v, nil
+}
+
+// ReplayChoices executes body once with the given choices (no exploration).
+func (e *Explorer) ReplayChoices(ch []int, body func(c *Chooser)) (*Violation, *Exec, error) {
+	e.body = body
+	e.curBound = -1
+	x := e.RunOne(ch, true)
+	return x.Viol, x, nil
 }
